@@ -95,6 +95,51 @@ def dispatch(ck, F):
                    "Token::%s: interpreter %s, analyzer %s -- a statement starting with it is accepted by one fork and "
                    "rejected by the other" % (v, e, a), nontrivial=e["explicit"])
     ck.floor("C06.explicit dispatch arms", n_explicit, 20)
+    # what each analyzer arm does to the token cursor directly must be something the interpreter's arm does too
+    evb = F.one("StatementEvaluator::evaluate_statement")
+    anb = F.one("StatementAnalyzer::evaluate_statement")
+    if evb is not None and anb is not None:
+        pe, pa = arm_cursor_prims(evb), arm_cursor_prims(anb)
+        for v in sorted(pa):
+            extra = pa[v] - pe.get(v, set())
+            ck.require(not extra, "C06:DISPATCH-CURSOR:%s" % v, "dispatch agreement",
+                       "the analyzer's %s arm moves the cursor no differently (%s)" % (v, sorted(pa[v]) or "not at all"),
+                       "the analyzer's arm for Token::%s calls %s on the token cursor, which the interpreter's arm does not: "
+                       "statements after it on the line (e.g. the ELSE clause of `IF c THEN %s ELSE ...`) are skipped by the "
+                       "checker but executed by the interpreter" % (v, sorted(extra), v.upper()), anb.span, nontrivial=bool(pa[v]))
+    ai = F.bodies.get(AN_S + "::evaluate_if_statement")
+    if ai is not None:
+        sk = grammar.skeleton(ai, F=F, distinct=False)
+        want = [("call", "evaluate_expression", False), ("expect_next_token", "Then", False),
+                ("call", "evaluate_statement_or_goto_line_number", False), ("accept_next_token", "Else", False),
+                ("call", "evaluate_statement_or_goto_line_number", False)]
+        ck.require(sk == want, "C06:IF:both-branches-analysed", "dispatch agreement",
+                   "the analyzer checks the condition, the THEN statement and, if present, the ELSE statement",
+                   "the analyzer's IF handler no longer analyses condition, THEN and ELSE in turn: %s" % sk, ai.span)
+
+
+def arm_cursor_prims(body):
+    """{variant: set of token-cursor primitives called directly inside that dispatch arm}"""
+    out = {}
+    best = None
+    for bb in sorted(body.reachable()):
+        info = body.switch_info(bb)
+        if info and info[3] and len(info[3]) >= 20 and len(info[1]) >= 10:
+            best = info
+            break
+    if best is None:
+        return out
+    subject, targets, otherwise, names = best
+    for v, n in names.items():
+        if v not in targets:
+            continue
+        reg = exclusive_region(body, targets[v])
+        prims = set()
+        for c in body.calls():
+            if c.bb in reg and c.callee.startswith("abasic_core::program::Program::") and c.callee.split("::")[-1] in grammar.CURSOR:
+                prims.add(c.callee.split("::")[-1])
+        out[n] = prims
+    return out
 
 
 # ------------------------------------------------------------------------------------- 2
